@@ -41,7 +41,7 @@ class C09(Prop):
         return dict(entry="maximum_cardinality_matching_bipartite", family=family, G=[[k, a] for k, a in G.items()], X=X, Y=Y, und=und)
 
     def cases(self, rng, tier):
-        for a, b in ((3, 3), (2, 3), (3, 2), (1, 1), (2, 2)):
+        for a, b in ((3, 3), (2, 3), (3, 2), (1, 1), (2, 2), (1, 0), (3, 0), (0, 1), (0, 3)):      # incl. an empty side (no edges possible, empty matching)
             X = list(range(a)); Y = list(range(a, a + b))
             allp = [(x, y) for x in X for y in Y]
             for mask in range(2 ** len(allp)):
